@@ -169,7 +169,12 @@ type sim struct {
 	lab *types.ValidatorSet
 
 	classMemo map[string]string
+	created   map[int64][]string // block-db keys that did not exist before the save of height h
+	pruneCtx  *pruneCtx          // the prune during which the current incarnation crashed
+	baseHole  int64              // base height found deleted (known-finding class), until a later prune moves the base
 }
+
+type pruneCtx struct{ base0, retain int64 }
 
 var (
 	keyCache = map[int]crypto.PrivKey{}
@@ -187,7 +192,7 @@ func key(i int) crypto.PrivKey {
 func newSim(env *simcore.Env, cfg simcore.Op) simcore.Sim {
 	s := &sim{env: env, cfg: cfg, chainID: "storesim-chain", init: cfg.Int64("init"), partSize: uint32(cfg.Int("part")),
 		blocks: map[int64]*blk{}, vals: map[int64]*types.ValidatorSet{}, params: map[int64]tmproto.ConsensusParams{}, paramTouched: map[int64]bool{},
-		lastPoints: map[string]int{"block": 30, "prune": 6}, opsLeft: cfg.Int("nops"), classMemo: map[string]string{}}
+		lastPoints: map[string]int{"block": 30, "prune": 6}, opsLeft: cfg.Int("nops"), classMemo: map[string]string{}, created: map[int64][]string{}}
 	if s.init <= 0 {
 		s.init = 1
 	}
@@ -549,6 +554,7 @@ func (s *sim) Apply(op simcore.Op) bool {
 		n := s.live
 		crashed, pts, label := s.withCrash(n, k, func() { s.perform(n, kind, op, true) })
 		if !crashed {
+			s.pruneCtx = nil
 			s.lastPoints[kind] = pts
 			e.Count("probe.crash_point_beyond_op")
 			s.audit(n, "after "+kind, auditOpts{full: true, post: true})
@@ -568,6 +574,7 @@ func (s *sim) Apply(op simcore.Op) bool {
 		e.Logf("crash at point %d (%s) unsynced block=%d state=%d kept %d/%d", k, label, ub, us, kb, ks)
 		s.app.Crash()
 		s.restart(n.bdb.Image(kb), n.sdb.Image(ks), fmt.Sprintf("crash in %s at point %d (%s), kept %d/%d block-db and %d/%d state-db unsynced write groups", kind, k, label, kb, ub, ks, us))
+		s.pruneCtx = nil
 		s.gc()
 	case "sweep":
 		kind := op.Str("on")
@@ -608,6 +615,7 @@ func (s *sim) perform(n *node, kind string, op simcore.Op, checks bool) {
 	if kind == "block" {
 		s.doBlock(n, op)
 	} else {
+		s.pruneCtx = &pruneCtx{base0: n.bs.Base(), retain: op.Int64("retain")}
 		s.doPrune(n, op.Int64("retain"), checks)
 	}
 }
@@ -723,7 +731,20 @@ func (s *sim) doBlock(n *node, op simcore.Op) {
 	} else {
 		s.env.Count("probe.decided_block_saved_again")
 	}
+	// observe which keys the save of this height creates (for the leak check after pruning)
+	var made []string
+	if !s.inSweep && n == s.live {
+		n.bdb.Trace = func(k string, del bool) {
+			if has, _ := n.bdb.Has([]byte(k)); !has && !del {
+				made = append(made, k)
+			}
+		}
+	}
 	n.bs.SaveBlock(b.block, b.parts, b.seen)
+	if n.bdb.Trace != nil {
+		n.bdb.Trace = nil
+		s.created[h] = made
+	}
 	prev := n.state
 	newState, _, err := n.exec.ApplyBlock(prev, b.id, b.block)
 	if err != nil {
@@ -1184,6 +1205,7 @@ func (s *sim) sweep(kind string, op simcore.Op) {
 	}
 	s.app.Restore(snap0)
 	s.rewind(m0)
+	s.pruneCtx = nil
 	e.Count("probe.sweep_" + kind)
 }
 
